@@ -118,6 +118,8 @@ int main(int argc, char **argv)
       for (long off = 0; off < (long) d.size(); off += stride) cases.push_back({(int) ci, bin, off, 0});
       for (long off = 0; off < (long) d.size(); off += cstride)
         for (int k = 1; k <= (bin ? 3 : 5); k++) cases.push_back({(int) ci, bin, off, k});
+      // binary: eight bytes of 0xFF (a length prefix of 2^64-1: sums of position and length wrap around)
+      if (bin) for (long off = 0; off < (long) d.size(); off += cstride) cases.push_back({(int) ci, bin, off, 6});
     }
 
   auto mutate = [&](Case const &c) {
@@ -132,6 +134,7 @@ int main(int argc, char **argv)
       break;
     case 4: d[c.off] = '}'; break;
     case 5: d[c.off] = isdigit((unsigned char) d[c.off]) ? 'x' : '9'; break;
+    case 6: for (int i = 0; i < 8 && c.off + i < (long) d.size(); i++) d[c.off + i] = (char) 0xFF; break;
     }
     return d;
   };
@@ -151,7 +154,7 @@ int main(int argc, char **argv)
     (void) wstart;
     return false;
   };
-  static const char *KNAME[6] = {"truncated", "byte-00", "byte-ff", "brace-open-or-length-2^61", "brace-close", "digit-to-letter"};
+  static const char *KNAME[7] = {"truncated", "byte-00", "byte-ff", "brace-open-or-length-2^61", "brace-close", "digit-to-letter", "length-2^64-1"};
 
   if (args.kv.count("one")) {
     // --one <conf name> --bin 0|1 --off N --kind K : run a single case in this process (diagnostics)
